@@ -125,6 +125,15 @@ Theorem C33_optimize_resurrects_refuted :
 Proof. vm_compute. repeat split; auto. Qed.
 Print Assumptions C33_optimize_resurrects_refuted.
 
+(* the same resurrected entry seen through Query: it sits in a bucket with its nil vector and is returned as a hit,
+   although the reference semantics has no such id *)
+Theorem C33_query_returns_resurrected_refuted :
+  rfind (rrun [] resurrect_ops) 1%N = None
+  /\ query false (run Z.eqb init resurrect_ops) [-1] (fun v => Z.of_nat (length v)) 10 (fun _ => true)
+     = [(0%N, 2); (1%N, 0)].
+Proof. vm_compute. split; reflexivity. Qed.
+Print Assumptions C33_query_returns_resurrected_refuted.
+
 (* staged ingestion: Consolidate moves 100 staged entries, phase 4 drops the TempVectors store with the rest *)
 Definition staged_ops (n : nat) : list op :=
   map (fun i => OUpsert true true (N.of_nat i) [Z.of_nat i + 1] 7%N (0, 0)) (seq 0 n) ++ [OOptimize true true [] []].
